@@ -16,6 +16,7 @@ func C02(p *core.Prog, rep *core.Report) {
 	ps8Readers(p, rep, "open")
 	mmapCloseTruncates(p, rep)
 	codecAgreement(p, rep)
+	newMergeCtx(p, rep).mg1Guard()
 	rep.NotCovered = append(rep.NotCovered, "equality of the two dumps over all histories and configuration pairs; ordering of files by name; adoption of merges (C06)")
 }
 
